@@ -1,3 +1,26 @@
 """vcheck configuration of work group B: PROPS = {"Cxx": {"families": [fam("name", quick_n, thorough_n)], "defects": ["Dn"]}}"""
 
-PROPS = {}
+PROPS = {
+    "C01": {
+        "families": [fam("c01.matchall", 1500, 20000, seeds=4)],
+        "defects": ["D1"],
+        "rule": "each op is a whole scenario (1-4 lists, 1-60 parsed network rules with their storage indexes, one request, oracle tables) "
+                "run through the real NetworkEngine.MatchAll, the model engine (shortcut/domain/sequential tables, djb2) and the linear scan; "
+                "answers are sorted sets of rule texts; non-trivial = a non-empty answer; distinct by hash of the op input",
+    },
+    "C02": {
+        "families": [fam("c02.dns", 1500, 20000, seeds=4)],
+        "defects": [],
+        "rule": "each op is a whole scenario (1-3 lists mixing adblock rules, hosts lines, bare domains, browser-only modifiers, "
+                "colliding host names; every parsed rule with its storage index; one DNS request; oracle tables; Go's GetDNSBasicRule choice as input) "
+                "run through the real DNSEngine.MatchRequest, the model DNS engine and the reference scan; answer = "
+                "(network rule texts)|NetworkRule==nil|(v4 host rules)|(v6 host rules)|matched; non-trivial = not the all-empty answer",
+    },
+    "C15": {
+        "families": [fam("c15.cosm", 2000, 24000, seeds=4)],
+        "defects": ["D9", "D3"],
+        "rule": "each op is a whole scenario (1-2 lists of ##/#@# rules: generic, one or many domains, negated, wildcard TLD, duplicate selectors; "
+                "hostname = listed/subdomain/sibling/unrelated; all 8 flag combinations) through the real CosmeticEngine.Match, the model lookup table "
+                "and the reference; answer = (generic selectors)|(specific selectors); non-trivial = not ()|()",
+    },
+}
